@@ -284,3 +284,40 @@ def gen_change_plan(ch: Chooser, *, faults: bool, restarts: bool, deletes: bool 
         'net': {'latency_seed': ch.int(0, 1 << 30), 'lat_lo': 0.001, 'lat_hi': ch.choice([0.005, 0.02, 0.1]),
                 'watch_lat_lo': 0.001, 'watch_lat_hi': ch.choice([0.005, 0.02, 0.1]), 'rules': rules},
     }
+
+
+def segment_cycles(st: common.StorageRef, lst: list[Step], snaps: dict[tuple[Any, Any], dict[str, Any]],
+                   uid: str) -> list[list[Step]]:
+    """
+    Handling cycles of one object: delimited by a change of the detected cause, by a new process for
+    resuming, or by a step after which nothing of the operator is pending on the object any more.
+    """
+    cycles: list[list[Step]] = []
+    cur: list[Step] = []
+    cur_reason: Optional[str] = None
+    cur_actor: Optional[str] = None
+    for s in lst:
+        if s.reason in ('create', 'update', 'delete', 'resume'):
+            if cur and (s.reason != cur_reason or (s.reason == 'resume' and s.actor != cur_actor)):
+                cycles.append(cur)
+                cur = []
+            cur_reason, cur_actor = s.reason, s.actor
+            cur.append(s)
+            view = snaps.get((uid, s.rv))
+            state_after = s.writes[-1].after if s.writes else view
+            if ((s.how == 'returned' and (s.calls or s.writes)) or s.writes) and not st.records(state_after):
+                cycles.append(cur)
+                cur = []
+        elif s.reason == 'gone':
+            if cur:
+                cycles.append(cur)
+                cur = []
+            cur_reason = None
+        elif s.reason in ('noop', 'free') and s.writes and not st.records(s.writes[-1].after):
+            if cur:
+                cycles.append(cur)
+                cur = []
+            cur_reason = None
+    if cur:
+        cycles.append(cur)
+    return cycles
